@@ -88,6 +88,9 @@ def approx_histories():
     H["approx-tighten"] = [("add", 0, [A]), ("aeval", 0, "x+1", 9, []), ("add", 0, ["x<=K1"]), ("aeval", 0, "x+1", 9, []), ("amax", 0, "x+1", False, [])]
     H["approx-branch"] = [("add", 0, [A]), ("aeval", 0, "x", 9, []), ("branch", 0, 1), ("add", 1, ["x>=K1"]), ("aeval", 1, "x", 9, []), ("aeval", 0, "x", 9, []), ("amin", 0, "x", False, [])]
     H["approx-pickle-tighten"] = [("add", 0, [A]), ("aeval", 0, "x+1", 9, []), ("pickle", 0), ("add", 0, ["x<=K1"]), ("aeval", 0, "x+1", 9, []), ("amax", 0, "x+1", False, []), ("aeval", 0, "x", 9, [])]
+    # downsize() before the round trip: what the solver learned from its constraints is still applied by both, the original and the copy
+    H["approx-pickle-downsize"] = [("add", 0, [A]), ("aeval", 0, "x", 9, []), ("downsize", 0), ("pickle", 0), ("amax", 0, "x", False, []), ("aeval", 0, "x", 9, []), ("amin", 0, "x+1", False, [])]
+    H["approx-pickle-downsize-add"] = [("add", 0, [A]), ("downsize", 0), ("pickle", 0), ("add", 0, ["x>=K1"]), ("amax", 0, "x", False, []), ("aeval", 0, "x", 9, [])]
     H["approx-pickle-bounds"] = [("add", 0, [A]), ("add", 0, ["x>=K1"]), ("aeval", 0, "x", 9, []), ("pickle", 0), ("aeval", 0, "x", 9, []), ("add", 0, ["x!=K2"]), ("aeval", 0, "x", 9, []), ("amax", 0, "x", False, [])]
     H["approx-merge"] = [("branch", 0, 1), ("add", 0, [A]), ("add", 1, ["x>=K1"]), ("aeval", 0, "x", 9, []), ("merge", 0, [1], ["b", "!b"], 2), ("aeval", 2, "x", 9, []), ("asolution", 2, "x", 2, []), ("asat", 2, [])]
     H["approx-unsat"] = [("add", 0, [A]), ("add", 0, ["x>K2"]), ("asat", 0, []), ("add", 0, ["y<=K2"]), ("asat", 0, [])]
@@ -216,6 +219,9 @@ def pickle_histories():
     # a solver and its branch in one pickle: what they shared must stay copy-on-write
     H["pickle-pair-then-diverge"] = [("add", 0, [A]), ("branch", 0, 1), ("pickle2", 0, 1), ("add", 0, ["x!=K2"]), ("eval", 1, "x", 9, []), ("eval", 0, "x", 9, []), ("add", 1, [U]), ("eval", 0, "x", 9, [])]
     H["pickle-pair-two-groups"] = [("add", 0, [A, "y<=K2"]), ("eval", 0, "x", 2, []), ("branch", 0, 1), ("pickle2", 0, 1), ("add", 1, ["y!=K1"]), ("eval", 0, "y", 9, []), ("add", 0, ["x==y"]), ("eval", 1, "x", 9, [])]
+    # unsatisfiable through the pairwise shortcut (which caches the contradicting pair as the core): the round trip keeps the answer
+    for k, v in insert_everywhere([("add", 0, ["x==0!"]), ("add", 0, ["x==1!"]), ("unsat_core", 0), ("sat", 0, [])], ("pickle", 0), "pairwise-core").items():
+        H[k] = v
     H["branch-then-pickle-child@c"] = [("add", 0, [A]), ("branch", 0, 1), ("add", 1, ["x!=K2"]), ("pickle", 1), ("eval", 1, "x", 9, []), ("add", 1, [U]), ("eval", 1, "x", 9, []), ("eval", 0, "x", 9, [])]
     return H
 
@@ -283,6 +289,8 @@ def obligations(prop, tier):
         for cls in classes:
             if (cls == "SolverHybridApprox") != name.startswith("approx-"):
                 continue   # approximate histories run on the hybrid solver asked with exact=False, and only there
+            if cls == "SolverReplacement" and any(st[0] == "unsat_core" for st in h):
+                continue   # SolverReplacement has no unsat_core()
             if name.startswith("annotated-") and cls.startswith("SolverHybrid"):
                 # stated bound: the VSA backend of the hybrid solver rejects every annotation type it does not know (ValueError at add,
                 # BackendVSA.apply_annotation) - adding a user-annotated constraint is outside what that solver accepts
